@@ -306,6 +306,8 @@ class Machine(object):
         self.replies[key] = reply
         return reply
 
+    version_name = b"SC&MP/SpiNNaker"
+
     def perr(self, msg):
         self.protocol_errors.append(msg)
 
@@ -316,10 +318,10 @@ class Machine(object):
             if self.legacy:
                 ver = self.version[0] * 100 + self.version[1]
                 return OK, (arg1, ver << 16 | self.buffer_size, 1400000000), \
-                    b"SC&MP/SpiNNaker\0"
+                    self.version_name + b"\0"
             vs = "%d.%d.%d%s" % (self.version + (self.labels,))
             return OK, (arg1, 0xffff << 16 | self.buffer_size, 1400000000), \
-                b"SC&MP/SpiNNaker\0" + vs.encode() + b"\0"
+                self.version_name + b"\0" + vs.encode() + b"\0"
         if cmd == CMD["read"]:
             if a2 > self.buffer_size:
                 self.perr("read of %d bytes exceeds buffer %d" %
